@@ -149,6 +149,24 @@ pub fn run(ctx: &Ctx) -> Outcome {
     evals += 1; nontrivial += 1;
     if let Err((c, d)) = check_batch(&b) { fails.push((c, d, json!({"batch": b.iter().map(|e| format!("{:?}", e)).collect::<Vec<_>>()}))); }
   }
+  // (ii-c) a failed write must not leak into the next batch: fill the pipe until the writer gets EAGAIN, drain it, send again
+  // (same writer, and a second writer that sends after the first one's failure)
+  for n_fail in [1usize, 2, 3] { for second_writer in [false, true] {
+    evals += 1; nontrivial += 1;
+    let p1 = Pipe::new();
+    let junk = vec![0xaau8; 1 << 20];
+    unsafe { libc::write(p1.w, junk.as_ptr() as *const libc::c_void, junk.len()); } // fills the pipe (non-blocking, partial write)
+    let mut w1 = DevInputWriter::verif_from_fd(p1.w);
+    let mut failed = 0;
+    for i in 0..n_fail { if w1.send(&vec![Event::Pressed(boundary[i % boundary.len()]), Event::Released(boundary[i % boundary.len()])]).is_err() { failed += 1; } }
+    let _ = p1.drain();
+    let batch = vec![Event::Pressed(KeyCode::A)];
+    let bytes = if second_writer { let p2 = Pipe::new(); let mut w2 = DevInputWriter::verif_from_fd(p2.w); let _ = w2.send(&batch); p2.drain() } else { let _ = w1.send(&batch); p1.drain() };
+    let sz = std::mem::size_of::<libc::input_event>();
+    let ok = bytes.len() == 2 * sz && decode(&bytes).map(|r| r[0] == (EV_KEY, KeyCode::A as i32 as u16, 1) && r[1] == (EV_SYN, 0, 0)).unwrap_or(false);
+    if failed != n_fail { fails.push(("harness-could-not-make-a-write-fail", format!("{} of {} writes into a full pipe failed", failed, n_fail), json!({"scenario": "failed-write"}))); }
+    else if !ok { fails.push(("batch-after-failed-write-malformed", format!("after {} failed write(s){} the batch [Pressed(A)] was written as {} bytes: {:?}", n_fail, if second_writer { " on another writer" } else { "" }, bytes.len(), decode(&bytes)), json!({"scenario": "failed-write", "failed_writes": n_fail, "second_writer": second_writer}))); }
+  } }
   // (iii) read side: every sequence of record kinds up to the bound, then a sentinel
   let maxseq = if q { 4 } else { 5 };
   let mut seqs: Vec<Vec<Kind>> = vec![vec![]];
@@ -180,7 +198,7 @@ pub fn run(ctx: &Ctx) -> Outcome {
   o.cov("read_sequences", seqs.len() as u64);
   o.cov("read_sequences_with_foreign_records", skipped_kinds);
   o.cov("exhaustive", true);
-  o.cov("rule", format!("(i) every key code KeyCode::from_u16 knows x {{press, release}} as a one-event batch; (ii) every batch of length 0..={} over {} boundary codes x {{press, release}}; (ii-b) long alternating batches of n events for n around every power of two up to 1025; (iii) every sequence of length 0..={} over 9 record kinds (valid press/release, value 2/-1/3, EV_SYN, EV_MSC, EV_KEY with an unknown code, EV_SW) followed by a sentinel press; (iv) raw records of every event type 0..=0x1f x 6 codes x 4 values, alone, before and between key records (thorough: all ordered pairs). All inputs are distinct by construction; non-trivial = single-code batches (each a distinct code/value), multi-event or empty batches, and read sequences containing at least one record the reader must skip.", maxlen, boundary.len(), maxseq));
+  o.cov("rule", format!("(i) every key code KeyCode::from_u16 knows x {{press, release}} as a one-event batch; (ii) every batch of length 0..={} over {} boundary codes x {{press, release}}; (ii-b) long alternating batches of n events for n around every power of two up to 1025; (ii-c) one to three failed writes (full pipe) followed by a batch on the same or on a second writer; (iii) every sequence of length 0..={} over 9 record kinds (valid press/release, value 2/-1/3, EV_SYN, EV_MSC, EV_KEY with an unknown code, EV_SW) followed by a sentinel press; (iv) raw records of every event type 0..=0x1f x 6 codes x 4 values, alone, before and between key records (thorough: all ordered pairs). All inputs are distinct by construction; non-trivial = single-code batches (each a distinct code/value), multi-event or empty batches, and read sequences containing at least one record the reader must skip.", maxlen, boundary.len(), maxseq));
   let sample_bytes = { let p = Pipe::new(); let mut w = DevInputWriter::verif_from_fd(p.w); w.send(&vec![Event::Pressed(KeyCode::A)]).ok(); p.drain().iter().map(|b| format!("{:02x}", b)).collect::<Vec<_>>().join("") };
   let sample_read = format!("{:?}", check_read_sequence(&[Kind::AutoRepeat, Kind::Syn, Kind::Press]));
   o.cov("samples", json!([{"batch": ["Pressed(A)"], "bytes": sample_bytes}, {"read_sequence": ["AutoRepeat", "Syn", "Press"], "check": sample_read}]));
